@@ -156,7 +156,7 @@ func sameUpToRespelling(e, c string) (bool, string) {
 	return true, ""
 }
 
-const c20Alpha = "$,=_09aA"
+const c20Alpha = "$,=_09aA+-"
 
 func editCases(rep *report, r *rng, tc codecCase, s string, unmarshalCase func(codecCase, string, string) (reflect.Value, error, interface{})) {
 	// the budget of edit bases is split between the kinds of layout (wild, class, nested, hand, shipped), so that the
